@@ -370,6 +370,7 @@ WITNESSES = ['C07MutexGuardNotSend', 'C07RwLockGuardsNotSend', 'C07GetMutNeedsMu
 def run(ctx):
     from . import guardvocab
     guardvocab.G0(ctx, effects={'wake', 'block'})
+    guardvocab.G1(ctx, effects={'wake', 'block'})
     g_state.run_all(ctx, ["S2", "S3", "S5", "S5b", "S7", "S9", "D2"])
     g_sync.run_all(ctx, ["Y1:mutex,rwlock", "Y1c"])
     L1(ctx)
